@@ -120,7 +120,7 @@ theorem ginMeta_enc (p : Page) (h : p.WF) (r mo f : Nat) (hp : p.op = .gin r mo 
   rw [if_neg (by omega)]
   simp (disch := omega) only [uN_ok, ok_bind, rd_special, hs, sliceFrom_ok]
   rw [if_neg (by omega)]
-  simp only [hsd, ok_bind]
+  simp only [hsd]
   rw [if_neg (by omega)]
   simp only [opFields, r2, ok_bind, bit3z, hb, Bool.not_true, Bool.false_eq_true, if_false, hd, metaFields, u0, u1, u2, u3, u4, u5, u6, u7, u9, u10,
     pure_eq_ok, expectMeta]
